@@ -143,6 +143,14 @@ class Engine(ExprMixin, CallMixin):
             return [('fall', s, None)]
         return self.from_expr(self.ev(n.test, st), f)
 
+    def site_ordinal(self, kind, n):
+        """stable ordinal of a syntactic site of some kind inside the current function"""
+        self._site_ord = getattr(self, '_site_ord', {})
+        key = (self.cur_key, kind, id(n))
+        if key not in self._site_ord:
+            self._site_ord[key] = sum(1 for k in self._site_ord if k[0] == self.cur_key and k[1] == kind)
+        return self._site_ord[key]
+
     def assert_ordinal(self, n):
         self._assert_ord = getattr(self, '_assert_ord', {})
         key = (self.cur_key, id(n))
